@@ -227,6 +227,8 @@ def emit_expr(o, names, e):
         return e["v"]
     if k == "lit":
         return (vsc.signed if e["s"] else vsc.unsigned)(e["v"], e["w"])
+    if k == "enumlit":
+        return getattr(enum_type(e["enums"]), "m%d" % e["m"])
     if k == "fld":
         return getattr(o, names[e["i"]])
     if k == "bin":
